@@ -24,7 +24,7 @@ Labels == <<"a", "b", "c">>
 Pool == <<"int", "1", ">0", "<10", "(*1 | 2)", "(1 | *2)", "string", "{x: 1}", "{x: int, y?: 2}", "{x: >0}",
           "b", "c.x", "#D", "{y: 1}", "{[string]: int}",
           "(2 | {a: 2} | *\"a\")", "(2 | *int | string)", "(2 | *\"a\" | 1)",
-          "close({x: int})", "a", "_", "{x: b}", "[1, 2]", "[...int]", "\"s\"", "=~\"^s\"">>
+          "close({x: int})", "a", "_", "{x: b}", "[1, 2]", "[...int]", "\"s\"", "=~\"^s\"", ">1", "<2", ">=1.5", "<=2">>
 NPool == Len(Pool)
 TopIdx == 21
 
@@ -59,6 +59,9 @@ Fixed == {
   [l \in 1..3 |-> IF l = 1 THEN <<22, 9, 0>> ELSE IF l = 2 THEN <<6, 4, 0>> ELSE <<19, 8, 0>>],
   [l \in 1..3 |-> IF l = 1 THEN <<24, 23, 0>> ELSE IF l = 2 THEN <<26, 25, 7>> ELSE <<15, 8, 0>>],
   RefWrapSeed,
+  \* bounds that admit numbers but no integer, with the int arriving through a reference
+  [l \in 1..3 |-> IF l = 1 THEN <<27, 28, 11>> ELSE IF l = 2 THEN <<1, 0, 0>> ELSE <<2, 0, 0>>],
+  [l \in 1..3 |-> IF l = 1 THEN <<29, 30, 11>> ELSE IF l = 2 THEN <<1, 4, 0>> ELSE <<20, 3, 0>>],
   \* a: >0 & c.x & <10 where c is an erroneous struct (known finding: whether the
   \* reference c.x reports c's error depends on declaration / file order)
   [l \in 1..3 |-> IF l = 1 THEN <<3, 12, 4>> ELSE IF l = 2 THEN <<2, 0, 0>> ELSE <<14, 9, 19>>]
